@@ -1,6 +1,7 @@
 import Vanguard.Model.Config
 import Vanguard.Spec.Config
 import Vanguard.Props.C06
+import Vanguard.Gen.Facts
 /-!
   # C17 — NewTranscoder accepts exactly the servable configurations and honours them
 
@@ -340,5 +341,15 @@ theorem binding_never_404 (routes : List Route) (r : Route) (hr : r ∈ routes) 
   intro hnone
   have := C06.find_none_complete r.verb method path routes hnone r hr
   simp [routeMatches, hm] at this
+
+
+/-! ### the built-in defaults of the model are the ones in the source (regenerated on every run) -/
+
+theorem source_defaults_are_model :
+    Gen.defaultMaxMessageBufferBytes = ({} : SvcOpts).maxMsg ∧ Gen.defaultMaxGetURLBytes = ({} : SvcOpts).maxGet := by decide
+
+/-- The numbering of protocols used by the model (1 Connect, 2 gRPC, 3 gRPC-Web, 4 REST; the valid
+    ones are 1..4) is the declaration order of the `Protocol` constants. -/
+theorem source_protocol_order_is_model : Gen.protocols = ["Connect", "GRPC", "GRPCWeb", "REST"] := by decide
 
 end Vanguard.C17
